@@ -103,53 +103,53 @@ Proof.
   f_equal. unfold dftN. apply sumf_ext; intros m _. rewrite conj_conj. reflexivity.
 Qed.
 
-Variables (meth : method_arg) (P : nat) (S : list F) (Vh : list (list F)).
+Variables (meth : method_arg) (eps : F) (P : nat) (S : list F) (Vh : list (list F)).
 Hypothesis Hrows : forall I, (I < P)%nat -> length (mrow Vh I) = P.
 
-Definition term (I k : nat) : F := nrm2 (dftN tw P (rsv Vh I) (- Z.of_nat k)%Z) * weight meth S I.
+Definition term (I k : nat) : F := nrm2 (dftN tw P (rsv Vh I) (- Z.of_nat k)%Z) * weight meth eps S I.
 
 Lemma acc_step_nth acc I k : (k < NFFT)%nat -> (I < P)%nat -> (P <= NFFT)%nat ->
-  nthF (acc_step meth tw NFFT S Vh acc I) k = nthF acc k + term I k.
+  nthF (acc_step meth eps tw NFFT S Vh acc I) k = nthF acc k + term I k.
 Proof.
   intros Hk HI HP. unfold acc_step. cbv zeta. rewrite nth_mk by exact Hk. f_equal.
   rewrite nth_noise_fft by (rewrite ?Hrows; assumption). rewrite Hrows by exact HI.
   unfold term, weight, rsv, mat. destruct meth; [ring|apply div_as_mul|ring].
 Qed.
 Lemma fold_acc_nth n : forall a acc k, (k < NFFT)%nat -> (a + n <= P)%nat -> (P <= NFFT)%nat ->
-  nthF (fold_left (acc_step meth tw NFFT S Vh) (seq a n) acc) k = nthF acc k + sumf n (fun t => term (a + t) k).
+  nthF (fold_left (acc_step meth eps tw NFFT S Vh) (seq a n) acc) k = nthF acc k + sumf n (fun t => term (a + t) k).
 Proof.
   induction n; intros a acc k Hk Ha HP; [cbn [seq fold_left sumf]; ring|].
   cbn [seq fold_left]. rewrite IHn by lia. rewrite acc_step_nth by lia.
   rewrite (sumf_shift n (fun t => term (a + t) k)). rewrite Nat.add_0_r.
   rewrite <- (Radd_assoc (F_R (fth (O:=OF)))). f_equal. f_equal. apply sumf_ext; intros t _. f_equal. lia.
 Qed.
-Lemma fold_acc_length l : forall acc, length acc = NFFT -> length (fold_left (acc_step meth tw NFFT S Vh) l acc) = NFFT.
+Lemma fold_acc_length l : forall acc, length acc = NFFT -> length (fold_left (acc_step meth eps tw NFFT S Vh) l acc) = NFFT.
 Proof. induction l; intros acc H; [exact H|]. cbn [fold_left]. apply IHl. unfold acc_step. apply mk_length. Qed.
 
-Lemma pseudo_den_length ns : length (pseudo_den meth tw NFFT P S Vh ns) = NFFT.
+Lemma pseudo_den_length ns : length (pseudo_den meth eps tw NFFT P S Vh ns) = NFFT.
 Proof. unfold pseudo_den. apply fold_acc_length. apply mk_length. Qed.
 (* PSD[k] before the inversion: the noise-subspace form at bin -k *)
 Lemma nth_pseudo_den ns k : (k < NFFT)%nat -> (ns < P -> P <= NFFT)%nat ->
-  nthF (pseudo_den meth tw NFFT P S Vh ns) k = dform meth tw P S Vh ns (- Z.of_nat k)%Z.
+  nthF (pseudo_den meth eps tw NFFT P S Vh ns) k = dform meth eps tw P S Vh ns (- Z.of_nat k)%Z.
 Proof.
   intros Hk HP. unfold pseudo_den, dform. destruct (Nat.lt_ge_cases ns P) as [Hlt|Hge].
   - rewrite fold_acc_nth by lia. rewrite nth_mk by exact Hk. unfold term. ring.
   - replace (P - ns)%nat with O by lia. cbn [seq fold_left sumf]. exact (nth_mk NFFT (fun _ => 0) k Hk).
 Qed.
-Lemma pseudo_length ns : length (pseudo meth tw NFFT P S Vh ns) = NFFT.
+Lemma pseudo_length ns : length (pseudo meth eps tw NFFT P S Vh ns) = NFFT.
 Proof. unfold pseudo. rewrite map_length. apply pseudo_den_length. Qed.
 Lemma nth_pseudo ns k : (k < NFFT)%nat -> (ns < P -> P <= NFFT)%nat ->
-  nthF (pseudo meth tw NFFT P S Vh ns) k = 1 / dform meth tw P S Vh ns (- Z.of_nat k)%Z.
+  nthF (pseudo meth eps tw NFFT P S Vh ns) k = 1 / dform meth eps tw P S Vh ns (- Z.of_nat k)%Z.
 Proof.
   intros Hk HP. unfold pseudo. rewrite nthF_map_lt by (rewrite pseudo_den_length; exact Hk).
   rewrite nth_pseudo_den by assumption. reflexivity.
 Qed.
 
 (* the form is NFFT-periodic in the bin, and even in the bin when the singular vectors are real *)
-Lemma dform_periodic ns (b c : Z) : dform meth tw P S Vh ns (b + c * Z.of_nat NFFT)%Z = dform meth tw P S Vh ns b.
+Lemma dform_periodic ns (b c : Z) : dform meth eps tw P S Vh ns (b + c * Z.of_nat NFFT)%Z = dform meth eps tw P S Vh ns b.
 Proof. unfold dform. apply sumf_ext; intros t _. rewrite (dft_periodic NFFT tw Hpos). reflexivity. Qed.
 Lemma dform_even ns (b : Z) : (forall I m, conj (mat Vh I m) = mat Vh I m) ->
-  dform meth tw P S Vh ns (- b)%Z = dform meth tw P S Vh ns b.
+  dform meth eps tw P S Vh ns (- b)%Z = dform meth eps tw P S Vh ns b.
 Proof.
   intros Hr. unfold dform. apply sumf_ext; intros t _. f_equal.
   pose proof (dft_conj NFFT tw Hpos P (rsv Vh (ns + t)) b) as E.
@@ -159,7 +159,7 @@ Qed.
 
 (* ---- eigen(): entry j is the pseudo-spectrum at the centred bin j - NFFT//2 ---- *)
 Lemma nth_eigen_vector ns j : (j < NFFT)%nat -> (ns < P -> P <= NFFT)%nat ->
-  nthF (eigen_reorder NFFT (pseudo meth tw NFFT P S Vh ns)) j = 1 / dform meth tw P S Vh ns (centerdc_bin NFFT j).
+  nthF (eigen_reorder NFFT (pseudo meth eps tw NFFT P S Vh ns)) j = 1 / dform meth eps tw P S Vh ns (centerdc_bin NFFT j).
 Proof.
   intros Hj HP. rewrite nth_reorder by (try apply pseudo_length; exact Hj).
   assert (Hh : (NFFT / 2 < NFFT)%nat) by (apply Nat.div_lt; lia).
@@ -170,10 +170,10 @@ Proof.
 Qed.
 (* ---- complex data: centerdc_2_twosided puts bin j at entry j ---- *)
 Lemma nth_class_complex ns j : (j < NFFT)%nat -> (ns < P -> P <= NFFT)%nat ->
-  nthF (ifftshift (eigen_reorder NFFT (pseudo meth tw NFFT P S Vh ns))) j = 1 / dform meth tw P S Vh ns (Z.of_nat j).
+  nthF (ifftshift (eigen_reorder NFFT (pseudo meth eps tw NFFT P S Vh ns))) j = 1 / dform meth eps tw P S Vh ns (Z.of_nat j).
 Proof.
   intros Hj HP.
-  assert (Hl : length (eigen_reorder NFFT (pseudo meth tw NFFT P S Vh ns)) = NFFT) by (apply reorder_length, pseudo_length).
+  assert (Hl : length (eigen_reorder NFFT (pseudo meth eps tw NFFT P S Vh ns)) = NFFT) by (apply reorder_length, pseudo_length).
   assert (Hh : (NFFT / 2 < NFFT)%nat) by (apply Nat.div_lt; lia).
   rewrite nth_ifftshift by (rewrite Hl; exact Hj). rewrite Hl.
   destruct (Nat.ltb_spec j (NFFT - NFFT / 2)) as [Hlt|Hge].
@@ -184,13 +184,13 @@ Qed.
 (* ---- real data: the first NFFT/2+1 centred entries, doubled and flipped: entry j is twice the value at bin -j ---- *)
 Lemma nth_class_real ns j : (j <= NFFT / 2)%nat -> (ns < P -> P <= NFFT)%nat ->
   nthF (rev (map (fun a => a * two)
-        (firstn (if Nat.even NFFT then NFFT / 2 + 1 else (NFFT + 1) / 2)%nat (eigen_reorder NFFT (pseudo meth tw NFFT P S Vh ns))))) j
-  = 1 / dform meth tw P S Vh ns (- Z.of_nat j)%Z * two.
+        (firstn (if Nat.even NFFT then NFFT / 2 + 1 else (NFFT + 1) / 2)%nat (eigen_reorder NFFT (pseudo meth eps tw NFFT P S Vh ns))))) j
+  = 1 / dform meth eps tw P S Vh ns (- Z.of_nat j)%Z * two.
 Proof.
   intros Hj HP. rewrite onesided_len.
-  assert (Hl : length (eigen_reorder NFFT (pseudo meth tw NFFT P S Vh ns)) = NFFT) by (apply reorder_length, pseudo_length).
+  assert (Hl : length (eigen_reorder NFFT (pseudo meth eps tw NFFT P S Vh ns)) = NFFT) by (apply reorder_length, pseudo_length).
   assert (Hh : (NFFT / 2 < NFFT)%nat) by (apply Nat.div_lt; lia).
-  assert (Lf : length (map (fun a => a * two) (firstn (NFFT / 2 + 1) (eigen_reorder NFFT (pseudo meth tw NFFT P S Vh ns)))) = (NFFT / 2 + 1)%nat).
+  assert (Lf : length (map (fun a => a * two) (firstn (NFFT / 2 + 1) (eigen_reorder NFFT (pseudo meth eps tw NFFT P S Vh ns)))) = (NFFT / 2 + 1)%nat).
   { rewrite map_length, firstn_length, Hl. lia. }
   rewrite nthF_rev by lia. rewrite Lf.
   rewrite nthF_map_lt by (rewrite map_length in Lf; lia).
